@@ -23,11 +23,11 @@ PROP = dict(
     ],
     jobs=dict(
         quick=[
-            job("brontide", "^TestVerifC11Handshake$", ["TestVerifC11Handshake"], 150, shards=2),
-            job("brontide", "^TestVerifC11ConnHandshake$", ["TestVerifC11ConnHandshake"], 1500, shards=1),
-            job("brontide", "^TestVerifC11Transport$", ["TestVerifC11Transport"], 120, shards=4),
-            job("brontide", "^TestVerifC11Tamper$", ["TestVerifC11Tamper"], 1200, shards=3),
-            job("brontide", "^TestVerifC11Conn$", ["TestVerifC11Conn"], 250, shards=2),
+            job("brontide", "^TestVerifC11Handshake$", ["TestVerifC11Handshake"], 400, shards=2),
+            job("brontide", "^TestVerifC11ConnHandshake$", ["TestVerifC11ConnHandshake"], 4000, shards=2),
+            job("brontide", "^TestVerifC11Transport$", ["TestVerifC11Transport"], 300, shards=5),
+            job("brontide", "^TestVerifC11Tamper$", ["TestVerifC11Tamper"], 2500, shards=4),
+            job("brontide", "^TestVerifC11Conn$", ["TestVerifC11Conn"], 600, shards=3),
         ],
         thorough=[
             job("brontide", "^TestVerifC11Handshake$", ["TestVerifC11Handshake"], 1500, shards=3, timeout=900),
